@@ -134,7 +134,10 @@ class Earley:
 
         # return if empty string
         if N == 0:
-            return sum(r.w for r in self.cfg.rhs[self.cfg.S] if r.body == ())
+            return sum(
+                (r.w for r in self.cfg.rhs[self.cfg.S] if r.body == ()),
+                start=self.cfg.R.zero,
+            )
 
         # initialize bookkeeping structures
         self._chart[()] = [self._initial_column]
